@@ -16,6 +16,7 @@ THEOREMS = [
     "Cares.C16.servers_invariant",
     "Cares.C16.dup_equiv",
     "Cares.C16.ntop_pton_v4",
+    "Cares.C16.ntop_pton_v6_examples",
     "Cares.C16.pinned_usevc_overrides_user_flags",
 ]
 TRUSTED = [
@@ -37,7 +38,7 @@ ASSUMPTIONS = [
 EXPLANATION = ("Theorems: every field guarded by its option bit survives ares_sysconfig_apply at init and at every reinit (user_wins); "
                "effective(init(save ch)) = effective ch on the fields the legacy struct carries; dup ch = ch including servers with "
                "ports and link-local interfaces; reinit under an unchanged system configuration is the identity; getCsv(setCsv(getCsv ch)) "
-               "= getCsv ch; pton(ntop a) = a. Tie: random option masks/values x server sets x sortlists x domains x generated system "
+               "= getCsv ch (per-entry hypothesis); pton(ntop a) = a (IPv4 proved, IPv6 instances). Tie: random option masks/values x server sets x sortlists x domains x generated system "
                "configuration x reinit, effective configuration of original vs copy compared in-process.")
 
 HOSTDOMAIN = None
@@ -358,7 +359,10 @@ def _mon_chan(case, out):
                 # a channel without servers cannot be saved (ARES_ENODATA): not a copy that differs
                 if T.parse_servers(src["servers"]) == []:
                     continue
-                why = "csv-null" if _csv_unrenderable(src) else ("dup-after-config-change:dup-fails" if changed else "dup-fails")
+                v4 = [x for x in T.parse_servers(src["servers"]) if x["addr"].startswith("4:")]
+                why = "csv-null" if _csv_unrenderable(src) else \
+                    ("no-dflt-svr-without-ipv4-server" if (int(src["flags"], 16) & 0x200) and not v4 and (int(src["mask"], 16) & 0x40) else
+                     ("dup-after-config-change:dup-fails" if changed else "dup-fails"))
                 bad.append((why if why.startswith("dup-after") else "dup-fails:" + why, "ares_dup failed (%s) for %s" % (o, src["servers"])))
                 continue
             df = _diff(src, e)
@@ -413,15 +417,21 @@ STREAMS = [
            nontrivial=lambda c, o: any(x.startswith("st=ok servers=[") for x in o) or any(x.startswith("3") or x.startswith("2") for x in o)),
 ]
 
-LEVEL_TEXT = ("Proof: Lean 4 theorems over all option masks/values, server lists, sortlists, domain lists and all system-configuration "
-              "contents: user_wins (a field whose option bit the application set is unchanged by ares_sysconfig_apply, at init and at every "
-              "reinit), save_init_fixpoint (effective(init(save ch)) = effective ch on every field the legacy struct carries), dup_equiv "
-              "(dup ch = ch including per-protocol ports and link-local interface, through the CSV step), reinit_idempotent, csv_fixpoint "
-              "(getCsv(setCsv(getCsv ch)) = getCsv ch), ntop_pton (pton(ntop a) = a). Tie: random option masks/values incl. rejected ones, "
+LEVEL_TEXT = ("Proof (partial where stated): Lean 4 theorems over all option masks/values, server lists, sortlists, domain lists and all "
+              "system-configuration contents. user_wins: a field whose option bit the application set is unchanged by ares_sysconfig_apply, "
+              "at init (user_wins_init) and at every reinit (user_wins_reinit). save_init_fixpoint: options saved from a channel returned by "
+              "ares_init_options and used to initialise a new one give exactly the same channel (all fields incl. servers). csv_fixpoint: "
+              "getCsv(setCsv(getCsv ch)) = getCsv ch for every server list ares_servers_update can produce, under the decidable per-entry "
+              "hypothesis entryOk (rendering + parsing one entry gives it back; false exactly for the open findings F37/F39-C16). dup_equiv: "
+              "ares_dup of a freshly initialised channel gives the same channel, servers travelling through the CSV step (same hypothesis). "
+              "ntop_pton: proved for all IPv4 addresses, kernel-checked instances for IPv6 (general IPv6 statement not proved). Not proved: "
+              "dup_equiv for channels whose servers were replaced by the CSV/port setters after initialisation, and entryOk itself in "
+              "general - both are checked on the implementation by the monitors. Tie: random option masks/values incl. rejected ones, "
               "IPv4/IPv6/link-local server sets with default/equal/differing ports, sortlists, domains x generated system configuration x "
               "reinit points, run on real channels in-process and on the compiled model; monitors evaluate save->init fixpoint, dup "
-              "equivalence, csv fixpoint and user-wins on the implementation itself.")
+              "equivalence, csv fixpoint, reinit idempotence, pton(ntop a) = a and user-wins on the implementation itself.")
 LEVEL_NOTE = ("Trusted: Lean kernel (axioms propext, Classical.choice, Quot.sound only); the hand-written model as far as the stream exercises "
               "it; harness/h_text.c (reads channel internals, interposes fopen/if_nametoindex/if_indextoname); the runner. Unlocked reads of "
-              "ares_save_options (F22) belong to C11.")
+              "ares_save_options (F22) belong to C11. Open findings F36-C16 (settings kept after their directive disappeared), F37-C16 "
+              "(CSV NULL for interface names with '-', '_', '.'), F39-C16 (servers the CSV parser rejects) print KNOWN-FINDING.")
 TECHNIQUE = "Lean 4 proofs over an executable model of channel configuration + differential correspondence and metamorphic monitors on real channels"
